@@ -8,6 +8,7 @@ mod c04;
 mod c05;
 mod c10;
 mod c11;
+mod c12;
 mod keys;
 mod c13;
 
@@ -23,6 +24,7 @@ fn main() {
         "C05" => c05::run(&mut ck),
         "C10" => c10::run(&mut ck),
         "C11" => c11::run(&mut ck),
+        "C12" => c12::run(&mut ck),
         "C13" => c13::run(&mut ck),
         _ => {
             eprintln!("vf-core: unknown property {id}");
